@@ -599,3 +599,160 @@ def nonLeafUniqueB (t : Tree) : Bool :=
         | none => true
 
 end Rel
+
+namespace Rel
+open Paths
+
+/-- The same with an optional row `(root, no parent, cells)` anywhere among the rows: it only
+    contributes the root's attributes. -/
+theorem relToTree_tree_rootrow (T : Tree) (hsu : SibUnique T) (hu : NonLeafUnique T)
+    (hne : ∀ b n, nodeAt b T = some n → n.name ≠ []) (cells : Attrs) (rows : List Row)
+    (hperm : rows.Perm (⟨T.name, none, cells⟩ :: edges T)) (allowDup : Bool) :
+    rootNames rows = [T.name] ∧
+    ∃ cs, relToTree allowDup rows = .ok (.node 0 T.name (cells.filter fun kv => kv.2 ≠ .null) cs) ∧
+      (edges (.node 0 T.name [] cs)).Perm ((edges T).map norm) ∧
+      ∀ a n, nodeAt a (.node 0 T.name (cells.filter fun kv => kv.2 ≠ .null) cs) = some n → ChildSpec rows n := by
+  have hmem : ∀ r, r ∈ rows ↔ r = ⟨T.name, none, cells⟩ ∨ ∃ (a : Addr) (p : Tree) (k : Nat) (d : Tree),
+      nodeAt a T = some p ∧ p.children[k]? = some d ∧ r = rowOf p d := by
+    intro r; rw [hperm.mem_iff, List.mem_cons, mem_edges_addr]
+  have hrr : (⟨T.name, none, cells⟩ : Row) ∈ rows := (hmem _).mpr (.inl rfl)
+  -- no edge row names the root as a child
+  have hnoroot : ∀ (a : Addr) (p : Tree) (k : Nat) (d : Tree), nodeAt a T = some p → p.children[k]? = some d →
+      d.name ≠ T.name := by
+    intro a p k d hp hd hc
+    have hTne : T.children ≠ [] := by
+      cases a with
+      | nil => simp at hp; subst hp; intro e; rw [e] at hd; simp at hd
+      | cons j ks => rw [nodeAt_cons] at hp; intro e; rw [e] at hp; simp at hp
+    have hd' : nodeAt (a ++ [k]) T = some d := by rw [nodeAt_append, hp]; simp [nodeAt_cons, hd]
+    have := hu [] (a ++ [k]) T d rfl hd' hTne hc.symm
+    simp at this
+  -- root inference
+  have hroot : rootNames rows = [T.name] := by
+    unfold rootNames
+    apply dedupBy_eq_single
+    · intro e
+      have : T.name ∈ (rows.filter fun r => r.parent.isNone).map (·.child) ++
+          (rows.filterMap (·.parent)).filter fun p => !(rows.any fun r => r.child = p) := by
+        rw [List.mem_append]; left
+        exact List.mem_map.mpr ⟨_, List.mem_filter.mpr ⟨hrr, rfl⟩, rfl⟩
+      rw [e] at this; cases this
+    · intro y hy
+      rw [List.mem_append] at hy
+      rcases hy with hy | hy
+      · rw [List.mem_map] at hy
+        obtain ⟨r, hr, rfl⟩ := hy
+        rw [List.mem_filter] at hr
+        rcases (hmem r).mp hr.1 with rfl | ⟨a, p, k, d, _, _, rfl⟩
+        · rfl
+        · simp [rowOf] at hr
+      · rw [List.mem_filter, List.mem_filterMap] at hy
+        obtain ⟨⟨r, hr, hry⟩, hnc⟩ := hy
+        simp only [Bool.not_eq_true', List.any_eq_false, decide_eq_true_eq] at hnc
+        rcases (hmem r).mp hr with rfl | ⟨a, p, k, d, hp, hd, rfl⟩
+        · cases hry
+        · simp only [rowOf, Option.some.injEq] at hry
+          subst hry
+          by_cases ha : a = []
+          · subst ha; simp at hp; rw [hp]
+          · obtain ⟨a', j, rfl⟩ : ∃ a' j, a = a' ++ [j] :=
+              ⟨a.dropLast, a.getLast ha, (List.dropLast_append_getLast ha).symm⟩
+            obtain ⟨p', hp', hj⟩ := nodeAt_snoc a' j T p hp
+            have : rowOf p' p ∈ rows := (hmem _).mpr (.inr ⟨a', p', j, p, hp', hj, rfl⟩)
+            exact absurd rfl (hnc _ this)
+  -- no ambiguous repeated non-leaf child
+  have hdup : dupChildren rows = false := by
+    cases hd : dupChildren rows with
+    | false => rfl
+    | true =>
+      exfalso
+      unfold dupChildren at hd
+      simp only [List.any_eq_true, decide_eq_true_eq] at hd
+      obtain ⟨q, hq, hlen⟩ := hd
+      have hnd : ((((dedupBy (rows.map fun r => (r.child, r.parent))).filter fun p =>
+          (dedupBy (rows.map fun r => (r.child, r.parent))).any fun q => q.2 = some p.1)).filter
+            fun q' => q'.1 = q.1).Nodup := ((nodup_dedupBy _).filter _).filter _
+      obtain ⟨x, hx, y, hy, hxy⟩ := exists_ne_of_nodup_length _ hnd hlen
+      simp only [List.mem_filter, mem_dedupBy, List.mem_map, List.any_eq_true, decide_eq_true_eq] at hx hy
+      obtain ⟨⟨⟨r1, hr1, rfl⟩, ⟨q3, ⟨r3, hr3, rfl⟩, h3⟩⟩, hx1⟩ := hx
+      obtain ⟨⟨⟨r2, hr2, rfl⟩, _⟩, hy1⟩ := hy
+      simp only at h3 hx1 hy1
+      -- the row naming `r1.child` as parent is an edge row
+      rcases (hmem r3).mp hr3 with rfl | ⟨a3, p3, k3, d3, hp3, hd3, rfl⟩
+      · cases h3
+      · simp only [rowOf, Option.some.injEq] at h3
+        have hp3ne : p3.children ≠ [] := by intro e; rw [e] at hd3; simp at hd3
+        -- where can a row with child `p3.name` come from?
+        have key : ∀ r ∈ rows, r.child = p3.name →
+            (r = ⟨T.name, none, cells⟩ ∧ a3 = []) ∨
+            (∃ (a : Addr) (p : Tree) (k : Nat) (d : Tree), nodeAt a T = some p ∧ p.children[k]? = some d ∧
+              r = rowOf p d ∧ a3 = a ++ [k]) := by
+          intro r hr hc
+          rcases (hmem r).mp hr with rfl | ⟨a, p, k, d, hp, hd, rfl⟩
+          · left
+            refine ⟨rfl, ?_⟩
+            exact hu a3 [] p3 T hp3 rfl hp3ne (by simpa using hc.symm)
+          · right
+            have hd' : nodeAt (a ++ [k]) T = some d := by rw [nodeAt_append, hp]; simp [nodeAt_cons, hd]
+            exact ⟨a, p, k, d, hp, hd, rfl, hu a3 (a ++ [k]) p3 d hp3 hd' hp3ne (by simpa [rowOf] using hc.symm)⟩
+        have k1 := key r1 hr1 h3.symm
+        have k2 := key r2 hr2 ((hy1.trans hx1.symm).trans h3.symm)
+        apply hxy
+        rcases k1 with ⟨e1, ea1⟩ | ⟨a1, p1, j1, d1, hp1, hd1, e1, ea1⟩ <;>
+          rcases k2 with ⟨e2, ea2⟩ | ⟨a2, p2, j2, d2, hp2, hd2, e2, ea2⟩
+        · rw [e1, e2]
+        · rw [ea1] at ea2; simp at ea2
+        · rw [ea2] at ea1; simp at ea1
+        · have e3 : a1 = a2 := List.append_inj_left' (ea1.symm.trans ea2) rfl
+          have e4 : j1 = j2 := by
+            have := List.append_inj_right' (ea1.symm.trans ea2) rfl
+            simpa using this
+          subst e3; subst e4
+          rw [hp1] at hp2; injection hp2 with hp2; subst hp2
+          rw [hd1] at hd2; injection hd2 with hd2; subst hd2
+          rw [e1, e2]
+  -- the descent
+  have hhyp : ∀ b n, nodeAt b T = some n →
+      (rows.filter fun r => r.parent = some n.name).Perm (n.children.map (rowOf n)) := by
+    intro b n hn
+    have := hperm.filter (fun r => r.parent = some n.name)
+    rw [List.filter_cons_of_neg (by simp)] at this
+    rwa [filter_edges_parent b T n hu hn] at this
+  have hh : height T ≤ rows.length + 1 := by
+    have := height_le_edges T
+    rw [hperm.length_eq]
+    simp only [List.length_cons]
+    omega
+  obtain ⟨cs, hcs, hpe⟩ := build_tree rows T hhyp hsu hne (rows.length + 1) hh
+  refine ⟨hroot, cs, ?_, hpe, ?_⟩
+  · unfold relToTree
+    have he : rows.isEmpty = false := by
+      cases hr : rows with
+      | nil => rw [hr] at hrr; cases hrr
+      | cons _ _ => rfl
+    have hfind : rows.find? (fun r => r.child = T.name) = some ⟨T.name, none, cells⟩ := by
+      cases hf : rows.find? (fun r => r.child = T.name) with
+      | none =>
+        rw [List.find?_eq_none] at hf
+        exact absurd (by simp) (hf _ hrr)
+      | some r =>
+        have h1 := List.mem_of_find?_eq_some hf
+        have h2 := List.find?_some hf
+        rcases (hmem r).mp h1 with rfl | ⟨a, p, k, d, hp, hd, rfl⟩
+        · rfl
+        · have h2' : d.name = T.name := of_decide_eq_true h2
+          exact absurd h2' (hnoroot a p k d hp hd)
+    have hTn : T.name ≠ [] := hne [] T rfl
+    simp [he, hdup, hroot, hfind, hTn, hcs, rowAttrs]
+  · intro a n hn
+    obtain ⟨s1, s2⟩ := build_spec rows _ _ cs hcs
+    cases a with
+    | nil => simp at hn; subst hn; exact s1
+    | cons k ks =>
+      rw [nodeAt_cons] at hn
+      simp only [Tree.children_node] at hn
+      cases hk : cs[k]? with
+      | none => rw [hk] at hn; cases hn
+      | some d => rw [hk] at hn; exact s2 d (List.mem_of_getElem? hk) ks n hn
+
+end Rel
